@@ -39,6 +39,11 @@ def _mk_product_op(ukind, fkind, op, R1, R2, update_full):
         wf_measure(w, "receiver-after", u, is_pdf=(ukind == "pdf"))
         if fkind in ("measure", "diag-measure", "pdf"):
             wf_measure(w, "argument-after", f, is_pdf=(fkind == "pdf"))
+        if not update_full:
+            # history: the lazily computed caches of the product (filled by its first query) are consistent as well -- whatever
+            # class the product has, its own invert_lambda must invert ITS precision
+            res.log_integral()                                   # REAL (fills Sigma, ln det, lnZ)
+            wf_measure(w, "result-after-query", res)
     return ob
 
 
@@ -117,7 +122,9 @@ def _register():
             for op in ("multiply", "hadamard"):
                 for (R1, R2) in (RC_HAD if op == "hadamard" else RC_MUL):
                     for uf in (False, True):
-                        quick = uf and ukind in ("measure", "measure+cache", "pdf") and R1 != 1 and R2 != 1
+                        quick = (uf and ukind in ("measure", "measure+cache", "pdf") and R1 != 1 and R2 != 1) or \
+                            (not uf and ukind in ("measure", "diag-measure", "diag-measure+cache") and fkind in ("general", "rank-one", "linear")
+                             and R1 != 1 and R2 != 1)
                         sorts = sorted({s for s in (R1, R2) if s != 1}) + ["D"]
                         REG.ob(f"{op}/{ukind}*{fkind}/R=({R1},{R2})/update_full={uf}", sorts=sorts, funcs=_funcs(fkind, op),
                                tier="quick" if quick else "thorough",
